@@ -25,6 +25,7 @@ EXPLAIN = ("R-REG flow-mod command handlers; R-ORDER/R-DOM rejection-before-muta
 FT = 'openflow.flow_table'
 
 LOFM = 'openflow.libopenflow_01'
+SWM = 'datapaths.switch'
 
 def run (ctx):
   ctx.explanation = EXPLAIN
@@ -314,6 +315,15 @@ def run (ctx):
             "%s returns a generator expression, and %s applies %s to it: a generator object is true even when it yields nothing and is exhausted by its first loop - "
             "e.g. a MODIFY that matches no entry no longer acts as an ADD" % (callee_.qual, caller_.qual, how_), (m_, node_), 'D3')
   if not gm: ctx.ok('R-BYTES', ft, "query results tested for emptiness / measured / re-iterated are containers", "%d lazily returning helper(s), none misused" % nlazy, ft, 'D3')
+  # the switch's handler for table modifications stays subscribed: revent unsubscribes a handler that returns False (or a tuple
+  # asking for removal) - after that no removal ever yields a flow-removed message
+  hft = repo.cls(SWM, 'SoftwareSwitchBase').methods.get('_handle_FlowTableModification') if repo.has_func(SWM + ':SoftwareSwitchBase._handle_FlowTableModification') else None
+  if hft is not None:
+    ctx.analysed(hft)
+    badr = [r_ for r_ in q.returns_of(hft.node) if r_.value is not None and not (isinstance(r_.value, ast.Constant) and r_.value.value is None)]
+    ctx.ob('R-EFFECT', hft, "the table-modification handler never asks revent to unsubscribe it", not badr, "returns nothing" if not badr else
+           "`%s`: a handler that returns False (or an EventRemove-style value) is removed from the source's listener list by raiseEvent - from then on entries that requested notification are removed without any flow-removed message"
+           % norm(badr[0])[:50], (hft.module, badr[0]) if badr else hft, 'D4')
   # ---- D4 notification -----------------------------------------------------
   removal_routines = []
   for name in ('remove_entry', '_remove_specific_entries'):
